@@ -60,6 +60,13 @@ def main(p):
                 if rep == 0:
                     variants.append(("zero error bar", list(f), "zero-sigma"))
                     variants.append(("infinite datum", list(f), "inf-y"))
+                # complex predictions whose imaginary parts cancel in the reduced statistic (the result of the formula is real although
+                # the prediction is not): purely imaginary model on zero data, real part equal to the data, a single such element
+                if rep < 2:
+                    variants.append(("purely imaginary prediction on zero data", [complex(0.0, 0.5 + v) for v in f], "cancel-zero-y"))
+                    variants.append(("complex prediction whose real part equals the data", [complex(y[k_], 0.3 + f[k_]) for k_ in range(n)], "cancel"))
+                    k1 = rng.randrange(n)
+                    variants.append(("one complex element whose real part equals the datum", [complex(y[k_], 1.25) if k_ == k1 else y[k_] + 0.5 for k_ in range(n)], "cancel"))
                 for name, g, sp in variants:
                     oo = o
                     if sp == "zero-sigma":
@@ -72,6 +79,8 @@ def main(p):
                         y2 = list(y)
                         y2[0] = float("inf")
                         oo = mk(cls, x, y2, s)
+                    if sp == "cancel-zero-y":
+                        oo = mk(cls, x, [0.0] * n, s)
 
                     def eq_numpy(xx, *a, g=g):
                         if g is None:
@@ -93,6 +102,8 @@ def main(p):
                         continue
                     must_inf = False
                     if g is None:
+                        must_inf = True
+                    elif sp in ("cancel", "cancel-zero-y"):
                         must_inf = True
                     elif sp is not None and not isinstance(sp, str):
                         if isinstance(sp, complex) and sp.imag != 0:
